@@ -94,7 +94,7 @@ def random_batch(rng, quick):
     return GB.BatchScenario(cls="batch", mode=rng.choice(["many", "original", "one", "one_original"]), d=d,
                             n_inner=rng.choice([1, 2, 4, 3]), n_override=rng.choice([None, None, 2]),
                             model_seed=rng.randrange(10 ** 6), rows=rows, seed=rng.randrange(2 ** 31),
-                            names=rng.choice(["idx", "str", "mixed"]), nlab=rng.choice([1, 1, 2, 3]))
+                            names=rng.choice(["idx", "str", "mixed"]), nlab=rng.choice([1, 1, 2, 3]), loss_object=rng.random() < 0.25)
 
 
 def random_interval(rng, quick, calls=None):
@@ -105,7 +105,7 @@ def random_interval(rng, quick, calls=None):
     return GB.BatchScenario(cls="interval", mode="interval", d=d, n_inner=rng.choice([1, 2]),
                             interval=rng.choice([1, 2, 3, 4]), storage_len=rng.choice([1, 2, 3, 4]),
                             model_seed=rng.randrange(10 ** 6), rows=rows, calls=cl, seed=rng.randrange(2 ** 31),
-                            names=rng.choice(["idx", "str"]), nlab=rng.choice([1, 1, 2, 3]))
+                            names=rng.choice(["idx", "str"]), nlab=rng.choice([1, 1, 2, 3]), loss_object=rng.random() < 0.25)
 
 
 def float_checks(ctx, traces, scenarios, wanted):
